@@ -455,6 +455,56 @@ def _(c):
     c.ensure("origin_of_orbit_frame_is_its_orbit", ok_origin)
 
 
+def _grid_lagr(tier, rng):
+    """the 6 orders in which {synodic frame about L1, synodic frame about L2, a station and a QSW orbit frame} are registered (under new names each time)"""
+    for order in range(6):
+        yield {"order": order}
+
+
+@contract("C20", "register.same_named_nodes", funcs=[f"{NODE}.path", "beyond.frames.orient:Orientation.convert_to", "beyond.frames.lagrange:lagrange", "beyond.frames.frames:Frame.transform"],
+          grid=_grid_lagr, level="bounded")
+def _(c):
+    """bounded: two frames registered under different names whose orientation nodes bear the same name (the synodic frames about L1 and L2 of one pair of bodies: both
+    orientations are called SunEarthLagrange by the library) -- whatever the order of registration, a state in a station frame, in an orbit-attached frame or in EME2000
+    converts into EACH of them and back, and the direct conversion equals the one made through EME2000"""
+    import itertools
+    from beyond.env import solarsystem as sol
+    from beyond.frames.lagrange import lagrange
+    from beyond.frames.frames import orbit2frame
+    from beyond.frames.stations import create_station
+    from beyond.orbits import StateVector
+    from beyond.dates import Date
+    order = list(itertools.permutations(["L1", "L2", "src"]))[c.integer("order")]
+    tag = f"C20LG{c.integer('order')}"
+    date = Date(2019, 2, 3, 4, 5, 6)
+    made = {}
+    for what in order:
+        if what == "src":
+            made["station"] = create_station(f"{tag}STA", (12.0, 34.0, 56.0))
+            made["orbit"] = orbit2frame(f"{tag}ORB", StateVector([7.0e6, 1.0e5, 2.0e5, -50.0, 7.4e3, 900.0], date, "cartesian", "EME2000"), orientation="QSW")
+        else:
+            made[what] = lagrange(sol.get_frame("Sun"), sol.get_frame("Earth"), int(what[1]), name=f"{tag}{what}")
+    c.ensure("orientations_share_a_name", made["L1"].orientation.name == made["L2"].orientation.name and made["L1"].orientation is not made["L2"].orientation)
+    x = [1.0e6, -2.0e6, 3.0e5, 1.0, -2.0, 0.5]
+    ok, why = True, ""
+    for src in ("station", "orbit", "EME2000"):
+        for dst in ("L1", "L2"):
+            try:
+                sv = StateVector(x, date, "cartesian", made.get(src, src))
+                direct = np.asarray(sv.copy(frame=made[dst]), dtype=float)
+                via = np.asarray(sv.copy(frame="EME2000").copy(frame=made[dst]), dtype=float)
+                back = np.asarray(sv.copy(frame=made[dst]).copy(frame=made.get(src, src)), dtype=float)
+            except Exception as e:
+                ok, why = False, why + f" {src}->{dst}: {type(e).__name__} {e};"
+                continue
+            scale = np.linalg.norm(direct[:3])
+            if not (np.linalg.norm(direct[:3] - via[:3]) <= 1e-9 * scale and np.linalg.norm(back[:3] - np.asarray(x)[:3]) <= 1e-9 * scale):
+                ok, why = False, why + f" {src}->{dst}: differs;"
+    if not ok:
+        print("C20.register.same_named_nodes:", why[:300])
+    c.ensure("every_pair_converts_and_agrees", ok)
+
+
 FR = "beyond.frames.frames"
 
 
